@@ -490,12 +490,19 @@ pub fn gen_seq(t: &mut Tape) -> Scenario {
     p.family = "seq";
     p.sinks = &[SinkKind::CollectVec, SinkKind::Collect, SinkKind::CollectChannel];
     let mut g = Gen::new(t, p);
+    // a third of the runs on a single core (one host or one local core): every block has one
+    // replica there, so shuffles are sequential paths too
+    if g.t.draw(3) == 2 {
+        g.layout = if g.t.draw(2) == 1 { Layout::Local(1) } else { Layout::Remote(vec![1]) };
+    }
+    let single = g.layout.total_cores() == 1;
     let n = g.gen_len().min(3000);
     let keys = g.gen_keys();
     let mut s = g.add_source(false, n, keys);
     let nsteps = g.t.draw(9) as usize;
     for _ in 0..nsteps {
-        match g.t.draw(4) {
+        match g.t.draw(if single { 6 } else { 4 }) {
+            4 | 5 => s = g.un(s, UnOp::Shuffle),
             0 | 1 => {
                 let op = g.gen_map();
                 s = g.un(s, op);
